@@ -1536,7 +1536,8 @@ func nonNilSlice(v ssa.Value, depth int) bool {
 // ---------------------------------------------------------------- R-queue-answered
 // Transports that answer through a per-session queue instead of an http.ResponseWriter (legacy SSE): in the function
 // that dispatches a decoded request, every path from the dispatch to the function's exit hands a frame to the
-// session's queue — directly (a select with a send on a channel field) or through a callee that does so on all of its
+// session's queue — directly (a blocking select with a send on a channel field; one with a default arm drops the frame
+// when the queue is full) or through a callee that does so on all of its
 // own paths. A path that only logs (e.g. "could not encode the response") leaves the caller without any answer.
 func c03QueueAnswered(c *Ctx) {
 	// summary: functions in which every path from entry to a return enqueues
@@ -1544,6 +1545,9 @@ func c03QueueAnswered(c *Ctx) {
 	enqHere := func(in ssa.Instruction) bool {
 		switch x := in.(type) {
 		case *ssa.Select:
+			if !x.Blocking {
+				return false // with a default arm the frame is dropped when the queue is full: not an answer handed over
+			}
 			for _, st := range x.States {
 				if st.Dir == types.SendOnly {
 					if _, _, ok := ir.LoadedField(st.Chan); ok {
@@ -1623,7 +1627,7 @@ func c03QueueAnswered(c *Ctx) {
 			esc := flow.ExitsAvoiding(fn, call, enqHere, false)
 			c.R.Check(esc == nil, "R-queue-answered", "answer enqueued after dispatch in "+fname(fn), c.Pos(call.Pos()),
 				"every path from the dispatch to the exit hands a frame to the session's queue",
-				sprintf("%s can return (near %s) after dispatching a request without handing any frame to the session's queue: the request gets no answer at all (not even -32603)", fname(fn), iposEsc(c, esc)))
+				sprintf("%s can return (near %s) after dispatching a request without handing any frame to the session's queue (a send that a default arm can skip does not count): the request gets no answer at all (not even -32603)", fname(fn), iposEsc(c, esc)))
 		})
 	}
 	c.R.Min("R-queue-answered", 1)
